@@ -179,6 +179,18 @@ v('c05-bad-nav', 'C05', SG, "        self.accept(one(inst).V_VAR[633]())", "    
 v('c05-silent-local', 'C05', SG, "        o_obj = one(inst).O_OBJ[672]()\n        self.buf('create object instance of ', o_obj.Key_Lett)",
   "        o = one(inst).O_OBJ[672]()\n        self.buf('create object instance of ', o.Key_Lett)", 'silent', '', 'local renamed')
 
+v('c05-sent-keyword', 'C05', SG, "        self.buf(' to ')\n        self.accept(one(inst).V_VAR[616]())", "        self.buf(' from ')\n        self.accept(one(inst).V_VAR[616]())", 'fire', 'C05-SENTENTIAL',
+  'relate generated with `from`')
+v('c05-sent-missing-across', 'C05', SG, "        r_rel = one(inst).R_REL[655]()\n        self.buf(' across R', str(r_rel.Numb))", "        r_rel = one(inst).R_REL[655]()\n        self.buf(' R', str(r_rel.Numb))", 'fire', 'C05-SENTENTIAL',
+  'unrelate generated without `across`')
+v('c05-sent-bridge-value', 'C05', SG, "        self.buf(s_ee.Key_Lett, '::', s_brg.Name)\n        self.buf('(')\n        first_filter = lambda sel: one(sel).V_PAR[816, 'succeeds']() is None\n        self.accept(any(inst).V_PAR[810](first_filter))",
+  "        self.buf('bridge ', s_ee.Key_Lett, '::', s_brg.Name)\n        self.buf('(')\n        first_filter = lambda sel: one(sel).V_PAR[816, 'succeeds']() is None\n        self.accept(any(inst).V_PAR[810](first_filter))", 'fire', 'C05-SENTENTIAL',
+  'bridge keyword in value position')
+v('c05-sent-unary-noparen', 'C05', SG, "        self.buf('(')\n        self.buf(inst.Operator, ' ')\n        self.accept(one(inst).V_VAL[804]())\n        self.buf(')')", "        self.buf(inst.Operator, ' ')\n        self.accept(one(inst).V_VAL[804]())", 'silent', '',
+  'unary without parentheses still derives from expression (precedence is not a parse matter)')
+v('c05-sent-while-end', 'C05', SG, "        self.buf('end while')", "        self.buf('end loop')", 'fire', 'C05-SENTENTIAL', 'while terminated by `end loop`')
+v('c05-sent-select-where', 'C05', SG, "        self.buf(' from instances of ', o_obj.Key_Lett)\n        self.buf(' where ')", "        self.buf(' from instances of ', o_obj.Key_Lett)\n        self.buf(' when ')", 'fire', 'C05-SENTENTIAL', 'where keyword wrong')
+
 # ---------------------------------------------------------------- C06
 v('c06-661-reverted', 'C06', PB, "            xtuml.relate(act_smt, prev, 661, 'succeeds')", "            xtuml.relate(prev, act_smt, 661, 'succeeds')", 'fire', 'C06-CHAIN', 'Previous_Statement_ID designates the next statement')
 v('c06-missing-relate', 'C06', PB, "        relate(act_rel, r_rel, 653)\n", "", 'fire', 'C06-OBLIG', 'ACT_REL not related to its R_REL')
